@@ -27,6 +27,7 @@ fn registry() -> Vec<(&'static str, RunFn, ReplayFn)> {
         ("C10", props::c10::run, props::c10::replay),
         ("C11", props::c11::run, props::c11::replay),
         ("C12", props::c12::run, props::c12::replay),
+        ("C13", props::c13::run, props::c13::replay),
         ("C16", props::c16::run, props::c16::replay),
         ("C17", props::c17::run, props::c17::replay),
         ("C19", props::c19::run, props::c19::replay),
@@ -49,7 +50,10 @@ fn selfcheck() -> i32 {
             return 2;
         }
     }
-    // the structural reader must accept every valid corpus file it can decode
+    if let Err(e) = sched::check_upstream() {
+        eprintln!("MACHINERY: {}", e);
+        return 2;
+    }
     0
 }
 
@@ -125,6 +129,13 @@ fn main() {
             }
             std::process::exit(rc);
         }
+        Some("worker") => match args.get(2).map(|s| s.as_str()) {
+            Some("c13") => props::c13::worker_main(),
+            other => {
+                eprintln!("unknown worker {:?}", other);
+                std::process::exit(2);
+            }
+        },
         Some("walk") => {
             // debugging aid: harness walk <file.pdf|gen:NAME> [password]
             let what = args.get(2).expect("file");
